@@ -103,7 +103,7 @@ func (block *CBlock) updateTop(changedCandidates []*Candidate) {
 	} else if block.Top.Count() > newTop.Count() {
 		// some candidates unregistered. so maybe some normal nodes will become new candidates
 		// resort all candidates
-		block.Top.Rank(max_candidate_count, block.CandidateTrieDB.GetAll())
+		block.Top.Rank(max_candidate_count, block.registeredCandidates())
 	} else if newTop.Min().Total.Cmp(block.Top.Min().Total) > 0 {
 		// the min votes become bigger, it means some old candidates get richer now.
 		// (if the min votes stay equal, a candidate outside the list may have the same votes and a smaller address than a member whose votes dropped to the min. So resort all then)
@@ -113,8 +113,24 @@ func (block *CBlock) updateTop(changedCandidates []*Candidate) {
 		// the min votes become smaller, it means some old candidates lose their vote.
 		// maybe the loser candidates will become normal nodes, and some normal nodes will become new candidates
 		// resort all candidates
-		block.Top.Rank(max_candidate_count, block.CandidateTrieDB.GetAll())
+		block.Top.Rank(max_candidate_count, block.registeredCandidates())
 	}
+}
+
+// registeredCandidates lists the candidates of the global index which are still registered.
+// The index keeps the entry of a candidate that unregistered (with its votes at 0), in this block or in an earlier one.
+// With fewer registered candidates than places such an entry would be ranked into the top list again
+func (block *CBlock) registeredCandidates() []*Candidate {
+	all := block.CandidateTrieDB.GetAll()
+	result := make([]*Candidate, 0, len(all))
+	for _, candidate := range all {
+		account, err := block.AccountTrieDB.Get(candidate.Address)
+		if err == nil && account != nil && account.Candidate.Profile[types.CandidateKeyIsCandidate] == types.NotCandidateNode {
+			continue
+		}
+		result = append(result, candidate)
+	}
+	return result
 }
 
 func (block *CBlock) Ranking(voteLogs types.ChangeLogSlice) {
